@@ -161,6 +161,7 @@ const (
 func streaming(s *sessModel) bool { return s.state == "play" || s.state == "record" }
 
 type model struct {
+	nBadTrack int
 	impl     map[base.Method]bool
 	udp      bool
 	medias   int
@@ -893,6 +894,20 @@ func buildRequest(m *model, q Req, k int, knownID string, sc Scenario, desc *des
 		nset := 0
 		if tgt != nil {
 			nset = tgt.setup
+		}
+		if nset >= sc.Medias && tgt != nil && !foreignConn && !streaming(tgt) && (tgt.state == "prePlay" || tgt.state == "initial") &&
+			core.HS(sc.Seed, "c02.badtrack", "", uint64(m.nBadTrack))%100 < 40 && impl(base.Setup) && !(tr == "udp" && !m.udp) {
+			// a SETUP for a media that does not exist (index = number of medias, or beyond): an error,
+			// nothing changes
+			m.nBadTrack++
+			idx := sc.Medias + []int{0, 0, 1, 7, 99}[core.HS(sc.Seed, "c02.badtrackidx", "", uint64(m.nBadTrack))%5]
+			req.URL, _ = base.ParseURL(fmt.Sprintf("rtsp://10.0.0.1:8554/stream/trackID=%d", idx))
+			if tr == "tcp" {
+				trh.InterleavedIDs = &[2]int{2 * idx, 2*idx + 1}
+			}
+			req.Header["Transport"] = trh.Marshal()
+			set(expErr, fmt.Sprintf("SETUP for media %d of a stream with %d medias", idx, sc.Medias), nil)
+			return req, b
 		}
 		if nset >= sc.Medias {
 			// every media is set up already: not a state question, send a neutral request instead
